@@ -14,7 +14,7 @@ BOUNDS = {'quick': {'inputs': '1..3', 'secondary axis sizes': '1..2 (3 for a sin
 DEADLINE = {'quick': 150, 'thorough': 1500}
 
 
-def mk_inputs(ctx, specs, share=None):
+def mk_inputs(ctx, specs, share=None, kinds=None):
     """specs: list of (dims, sizes).  share: list of dims whose labels are identical objects across inputs (cheap, no forks)"""
     share = share or []
     arrs, refs = [], []
@@ -25,14 +25,14 @@ def mk_inputs(ctx, specs, share=None):
             if d in share and d in common and len(common[d]) == n:
                 labels.append(common[d])
             else:
-                l = ctx.labels(LK[DIMS.index(d)], n, 'l%d%s_' % (i, d))
+                l = ctx.labels((kinds or {}).get('%d:%s' % (i, d), LK[DIMS.index(d)]), n, 'l%d%s_' % (i, d))
                 common.setdefault(d, l)
                 labels.append(l)
         ncell = 1
         for n in sizes:
             ncell *= n
         cells = ctx.cells('f', ncell, 'v%d' % i)
-        a = ctx.mk(dims, labels, cells, lkinds=[LK[DIMS.index(d)] for d in dims], attrs={'src': i})
+        a = ctx.mk(dims, labels, cells, lkinds=[(kinds or {}).get('%d:%s' % (i, d), LK[DIMS.index(d)]) for d in dims], attrs={'src': i})
         arrs.append(a)
         refs.append(Ref(dims, labels, cells))
     return arrs, refs
@@ -44,8 +44,8 @@ def _labels_equal(ctx, la, lb):
     return ctx.AND(*[x == y for x, y in zip(la, lb)])
 
 
-def stack_case(ctx, specs, keys='default', form='list', align=False, sort=False, share=None, newname='k'):
-    arrs, refs = mk_inputs(ctx, specs, share)
+def stack_case(ctx, specs, keys='default', form='list', align=False, sort=False, share=None, newname='k', kinds=None):
+    arrs, refs = mk_inputs(ctx, specs, share, kinds)
     n = len(arrs)
     if keys == 'int':
         ks = ctx.labels('i', n, 'key')
@@ -141,9 +141,9 @@ def stack_case(ctx, specs, keys='default', form='list', align=False, sort=False,
     return ctx.done(ctx.AND(*oks), ctx.observe(res))
 
 
-def concat_case(ctx, specs, axis, by='name', align=False, sort=False, share=None):
+def concat_case(ctx, specs, axis, by='name', align=False, sort=False, share=None, kinds=None):
     """concatenate along dims0[axis]"""
-    arrs, refs = mk_inputs(ctx, specs, [d for d in (share or []) if d != specs[0][0][axis]])
+    arrs, refs = mk_inputs(ctx, specs, [d for d in (share or []) if d != specs[0][0][axis]], kinds)
     dims0 = list(refs[0].dims)
     cdim = dims0[axis]
     kw = {'axis': cdim if by == 'name' else axis}
@@ -256,6 +256,15 @@ def templates():
         add('stack-2d-transposed-rect-%s' % align, 'stack_case', cost=4, specs=[[[X, Y], [2, 3]], [[Y, X], [3, 2]]], align=align, share=[X, Y])
         add('stack-2d-singletons-%s' % align, 'stack_case', cost=2, specs=[[[X, Y], [1, 2]], [[X, Y], [1, 2]]], align=align, share=[Y])
         add('stack-3in-2d-%s' % align, 'stack_case', 'quick' if not align else 'off', cost=8 if not align else 3000, specs=[[[X, Y], [2, 1]], [[X, Y], [2, 1]], [[X, Y], [2, 1]]], align=align)
+    # 3-D inputs whose dimensions are a rotation of each other (cube and non-cube shapes), labels shared
+    for align in (False, True):
+        add('stack-3d-rotated-cube-%s' % align, 'stack_case', cost=3, specs=[[['x', 'y', 'z'], [2, 2, 2]], [['y', 'z', 'x'], [2, 2, 2]]], align=align, share=['x', 'y', 'z'])
+        add('stack-3d-rotated2-cube-%s' % align, 'stack_case', cost=3, specs=[[['x', 'y', 'z'], [2, 2, 2]], [['z', 'x', 'y'], [2, 2, 2]]], align=align, share=['x', 'y', 'z'])
+        add('stack-3d-rotated-%s' % align, 'stack_case', cost=3, specs=[[['x', 'y', 'z'], [2, 3, 1]], [['y', 'z', 'x'], [3, 1, 2]]], align=align, share=['x', 'y', 'z'])
+        add('concat-3d-rotated-%s' % align, 'concat_case', cost=3, specs=[[['x', 'y', 'z'], [2, 2, 2]], [['y', 'z', 'x'], [2, 2, 2]]], axis=0, align=align, share=['x', 'y', 'z'])
+    # an int-labelled secondary axis meets float labels under align=True
+    add('stack-mixed-kinds-align', 'stack_case', cost=3, specs=[[[X], [2]], [[X], [2]]], align=True, kinds={'0:x': 'i', '1:x': 'f'})
+    add('concat-mixed-kinds-align', 'concat_case', cost=4, specs=[[[Y, X], [1, 2]], [[Y, X], [2, 2]]], axis=0, align=True, kinds={'0:x': 'i', '1:x': 'f'})
     add('stack-0d', 'stack_case', cost=0.2, specs=[[[], []], [[], []]])
     add('stack-4in', 'stack_case', 'thorough', cost=20, specs=[[[X], [2]]] * 4, keys='int')
     # concatenate
